@@ -23,7 +23,7 @@ import (
 func init() {
 	Registry["C12"] = &Check{
 		Scenarios: c12Scenarios,
-		Rule: "no host address configured (nil, and an empty non-nil list): the CER carries the connection's local address; the application registers an RAA handler and, when the library watchdog is off, its own DWA handler; application answers delivered after the handshake alternate between DWA and RAA. success CEAs that also list Inband-Security-Id [1, 0] or [1] count as success. peer scripts: MaxRetransmits R in {0,1,2} (thorough 0..3); for the k-th CER received the peer does one of {nothing, success CEA, failing CEA 5010, CEA without Origin-Host, CEA without Result-Code, success CEA without any application, success CEA with an unsupported application, success CEA whose only application information is a Vendor-Specific-Application-Id group {Vendor-Id, unsupported id} / {Vendor-Id} / {Vendor-Id, supported id}, disconnect} after a delay in {0, 1/2, 1, 3/2} RetransmitInterval on the virtual clock; scenarios in which the transport takes 1/2 or 3/2 interval to accept a CER (slow writes); quick: every script with one answering CER index, thorough: also every script with two answering indexes; after a success every set of extras from {duplicate success CEA, late failing CEA, RAA, both a CEA and an RAA}. Every schedule of client goroutines, reader, timers and peer steps up to preemption bound 2 (quick) / unbounded (thorough); timers that are due may fire at any later step, so every tie ordering is explored. Eight scenarios go through the library's own dial entry points (sm.Client.DialTimeout and DialTLSTimeout; the instrumented dialer hands out an in-memory connection, deadlines run on the virtual clock, the TLS variant has a real crypto/tls server as peer): dial timeout {none, shorter than the handshake, shorter than the idle period, generous}, success CEA to the last permitted CER, an idle period, then a duplicate CEA and an answer for the application.",
+		Rule: "no host address configured (nil, and an empty non-nil list): the CER carries the connection's local address; the application registers an RAA handler and, when the library watchdog is off, its own DWA handler; application answers delivered after the handshake alternate between DWA and RAA. success CEAs that also list Inband-Security-Id [1, 0] or [1] count as success, and so do success CEAs carrying optional extras (one Failed-AVP, two Failed-AVPs one of them with a nested group, Error-Message, Supported-Vendor-Id x2 + Firmware-Revision + Origin-State-Id, two AVPs no dictionary defines). peer scripts: MaxRetransmits R in {0,1,2} (thorough 0..3); for the k-th CER received the peer does one of {nothing, success CEA, failing CEA 5010, CEA without Origin-Host, CEA without Result-Code, success CEA without any application, success CEA with an unsupported application, success CEA whose only application information is a Vendor-Specific-Application-Id group {Vendor-Id, unsupported id} / {Vendor-Id} / {Vendor-Id, supported id}, disconnect} after a delay in {0, 1/2, 1, 3/2} RetransmitInterval on the virtual clock; scenarios in which the transport takes 1/2 or 3/2 interval to accept a CER (slow writes); quick: every script with one answering CER index, thorough: also every script with two answering indexes; after a success every set of extras from {duplicate success CEA, late failing CEA, RAA, both a CEA and an RAA}. Every schedule of client goroutines, reader, timers and peer steps up to preemption bound 2 (quick) / unbounded (thorough); timers that are due may fire at any later step, so every tie ordering is explored. Eight scenarios go through the library's own dial entry points (sm.Client.DialTimeout and DialTLSTimeout; the instrumented dialer hands out an in-memory connection, deadlines run on the virtual clock, the TLS variant has a real crypto/tls server as peer): dial timeout {none, shorter than the handshake, shorter than the idle period, generous}, success CEA to the last permitted CER, an idle period, then a duplicate CEA and an answer for the application.",
 		Assume: []string{"virtual time: writes and computation take no time; lateness exists only where the peer script introduces it", "data-race freedom between visible operations (audited separately with -race)"},
 		QuickBudget: 150, ThoroughBudget: 2400,
 	}
@@ -63,7 +63,7 @@ func c12Scenarios(tier string) []*Scenario {
 		bound = vs.Unbounded
 		maxR = 3
 	}
-	kinds := []string{"success", "fail", "nohost", "norc", "noapp", "badapp", "vsabad", "vsavendor", "vsagood", "disconnect", "fail1001", "fail3004", "fail1", "relayauth", "relayacct", "succtls10", "succtls1"}
+	kinds := []string{"success", "fail", "nohost", "norc", "noapp", "badapp", "vsabad", "vsavendor", "vsagood", "disconnect", "fail1001", "fail3004", "fail1", "relayauth", "relayacct", "succtls10", "succtls1", "succ+failedavp", "succ+failedavp2", "succ+errmsg", "succ+optional", "succ+unknown"}
 	extraSets := [][]string{nil, {"dup"}, {"latefail"}, {"raa"}, {"dup", "raa"}, {"latefail", "raa"}, {"raa", "dup", "raa"}}
 	var out []*Scenario
 	add := func(R int, script []c12Act, extras []string) {
@@ -80,7 +80,7 @@ func c12Scenarios(tier string) []*Scenario {
 				for d := 0; d <= 3; d++ {
 					sc := append([]c12Act{}, silent...)
 					sc[k] = c12Act{Kind: kind, Delay: d}
-					if kind == "vsabad" || kind == "vsavendor" || kind == "vsagood" || strings.HasPrefix(kind, "fail") && kind != "fail" || strings.HasPrefix(kind, "relay") {
+					if kind == "vsabad" || kind == "vsavendor" || kind == "vsagood" || strings.HasPrefix(kind, "fail") && kind != "fail" || strings.HasPrefix(kind, "relay") || strings.HasPrefix(kind, "succ+") {
 						if d != 0 || k != 0 {
 							continue // application-shape variants: first CER, no delay
 						}
@@ -331,6 +331,33 @@ func c12ScenarioSlow(R int, script []c12Act, extras []string, bound int, slow []
 						nodes = append(nodes, u32avp(299, 1))
 						if act.Kind == "succtls10" {
 							nodes = append(nodes, u32avp(299, 0))
+						}
+						deliver("success", refcodec.EncodeMessage(h, nodes))
+					case "succ+failedavp", "succ+failedavp2", "succ+errmsg", "succ+optional", "succ+unknown":
+						// a success CEA that carries more than the handshake needs: what decides is the
+						// result code and the shared application, not which optional AVPs came along
+						// (Failed-AVP naming an optional CER AVP the peer ignored - once, and twice with a
+						// nested group; Error-Message; Supported-Vendor-Id, Firmware-Revision and
+						// Origin-State-Id; an AVP no dictionary defines, without the M bit)
+						b := peerAnswer(req, 2001, true)
+						h, _ := refcodec.DecodeHeader(b)
+						recs, _, _ := refcodec.Frame(b[20:], nil)
+						var nodes []refcodec.Node
+						for _, r := range recs {
+							nodes = append(nodes, refcodec.Node{Code: r.Code, Flags: r.Flags, Vendor: r.Vendor, Payload: r.Payload})
+						}
+						switch act.Kind {
+						case "succ+failedavp":
+							nodes = append(nodes, refcodec.Node{Code: 279, Flags: 0x40, Group: true, Children: []refcodec.Node{u32avp(267, 1)}})
+						case "succ+failedavp2":
+							nodes = append(nodes, refcodec.Node{Code: 279, Flags: 0x40, Group: true, Children: []refcodec.Node{u32avp(265, 999)}},
+								refcodec.Node{Code: 279, Flags: 0x40, Group: true, Children: []refcodec.Node{{Code: 260, Flags: 0x40, Group: true, Children: []refcodec.Node{u32avp(266, 999)}}}})
+						case "succ+errmsg":
+							nodes = append(nodes, refcodec.Node{Code: 281, Payload: []byte("one optional AVP ignored")})
+						case "succ+optional":
+							nodes = append(nodes, u32avp(265, 10415), u32avp(265, 13019), u32avp(267, 7), u32avp(278, 1234567))
+						case "succ+unknown":
+							nodes = append(nodes, refcodec.Node{Code: 60001, Payload: []byte{1, 2, 3}}, refcodec.Node{Code: 60002, Flags: 0x80, Vendor: 424242, Payload: []byte{9}})
 						}
 						deliver("success", refcodec.EncodeMessage(h, nodes))
 					case "relayauth", "relayacct":
